@@ -6,7 +6,8 @@ LEVEL = "model_checking"
 #          get_mru_element for LRU); get_element_count after every operation
 # Every configuration is finite and is run to its FIXPOINT (all histories of every length over the alphabet).
 # The deadlines are generous on purpose (shared machine): the runs are CPU-bound, about 14 us of CPU per transition;
-# quick is ~7e6 transitions (~10 s on 16 idle cores).
+# quick = 24 configurations / 1.6e5 states / 7.3e6 transitions (about 75 CPU-s), thorough = 66 configurations /
+# 1.07e6 states / 4.6e7 transitions (about 8 CPU-min); measured 19 s and 147 s wall on the shared 16-core machine.
 HARNESSES = [
     dict(name="lht", src=["lht.c"], variant="asan", deadline={"quick": 300, "thorough": 1500}),
     dict(name="cache", src=["cache.c"], variant="asan", deadline={"quick": 300, "thorough": 1500}),
